@@ -491,3 +491,8 @@ Proof.
     rewrite fold_left_plus_sum. lra.
 Qed.
 End HirshfeldCall.
+
+Lemma routes_agree_atom_lemma k M rad Rm pts A :
+  generate_weights ROps k M rad Rm pts [A] [] = Some (compute_atom_weight ROps k M rad Rm pts A) /\
+  compute_atom_weight ROps k M rad Rm pts A = map (fun d => becke_weight ROps k M rad Rm d A) pts.
+Proof. split; [apply routes_atom_lemma | apply compute_atom_weight_eq]. Qed.
